@@ -60,7 +60,7 @@ def model_phase(v, w, thorough, scn_path, cases_path):
         v.violation("model:" + mc.violated, "the model of the pending-read bookkeeping / split merge falsifies a clause beyond the listed known findings (design-level counterexample)",
                     {"area": "getrecord", "tlc": mc.error_text[:8000]})
     never = [a for a in mc.actions_never_taken() if a.startswith("Do") and a != "DoEnd"]   # (DoCancel is always explored exhaustively)
-    if never:
+    if never and not mc.violated:   # (a counterexample stops the exploration early)
         raise ToolError("actions never taken in MCGetRecord: %s" % never)
     sim = tlc("getrecord", "MCGetRecord", "MCGetRecord_sim.cfg", w, workers=1, simulate="num=%d" % (6000 if thorough else 600), depth=16,
               coverage=False, timeout=3000, extra=["-seed", str(seed())])
